@@ -1416,6 +1416,9 @@ struct World : IWorld {
     std::string encode(const generic_compiler& c) override {
         return glue_encode(c, name_);
     }
+    std::string encode_for_default_policy(const generic_compiler& c) override {
+        return glue_encode(c, "");
+    }
     std::string forward_declarations_of_methods(bool via_wrapper) override {
         return glue_fwd_policy<P>(via_wrapper);
     }
